@@ -30,6 +30,7 @@ class HealthCheckServer:
         self._server_protocol: asyncio.AbstractServer | None = None
         self._server: asyncio.AbstractServer | None = None
         self._health_status = HealthCheckStatus.OK
+        self._transports: set[asyncio.BaseTransport] = set()
 
     async def start(self) -> None:
         if self._server is None or not self._server.is_serving():
@@ -49,6 +50,9 @@ class HealthCheckServer:
     async def stop(self) -> None:
         if self._server is not None:
             self._server.close()
+            # connections which clients keep open would keep `wait_closed()` waiting
+            for transport in list(self._transports):
+                transport.close()
             await self._server.wait_closed()
             logger.info("Stopped health check server.")
 
@@ -75,6 +79,10 @@ class _HttpServerProtocol(asyncio.Protocol):
 
     def connection_made(self, transport: asyncio.BaseTransport) -> None:
         self.transport: asyncio.WriteTransport = transport  # type: ignore[assignment]
+        self.server._transports.add(transport)
+
+    def connection_lost(self, exc: Exception | None) -> None:  # noqa: ARG002
+        self.server._transports.discard(self.transport)
 
     def data_received(self, data: bytes) -> None:
         message = data.decode()
